@@ -178,6 +178,19 @@ fn check_diff(case: &DecCase, p: &mut Probe) -> Check {
         if ra != rb {
             return Err(Fail::new("factory-mismatch", format!("{name}: factory-built decoder returns {ra:?}, the generic decoder built directly with the named arithmetic and schedule returns {rb:?}")));
         }
+        // "no limit": a frame the direct decoder converges on is decoded again by fresh decoders of both
+        // kinds under an iteration limit beyond the i32 / u32 range
+        if rb.is_ok() && (direct_out.len() + case.h.ones.len()) % 5 == 0 {
+            let huge = [usize::MAX, 1usize << 32, i32::MAX as usize + 1, u32::MAX as usize][(case.h.ones.len() + case.limit) % 4];
+            let mut a = build_factory(&imp, hs.clone());
+            let mut b = build_direct(name, hs.clone()).unwrap();
+            let ra = guarded(|| a.decode(&llrs, huge)).map_err(|e| Fail::new("panic", format!("{name}: factory decoder panicked with limit {huge}: {e}")))?;
+            let rb = guarded(|| b.decode(&llrs, huge)).map_err(|e| Fail::new("panic", format!("{name}: direct decoder panicked with limit {huge}: {e}")))?;
+            if ra != rb {
+                return Err(Fail::new("factory-mismatch-huge-limit", format!("{name}: with iteration limit {huge} the factory-built decoder returns {ra:?}, the generic decoder returns {rb:?}")));
+            }
+            p.class("converged-frame-repeated-with-huge-limit");
+        }
         direct_out.push(rb);
     }
     let mut newly = false;
@@ -343,7 +356,7 @@ pub fn property() -> Property {
             }),
             Box::new(Sub {
                 name: "differential",
-                rule: "for each of the 36 names, factory-built decoder vs the generic decoder constructed directly from the named arithmetic type and schedule, on a separating family of inputs (C01 classes + strong LLRs 9..16.2 with sign flips so that degree-one clipping, Jones clipping, partial hard limiting, f32 saturation and schedule differences matter; H up to 10 x 14; limits {0,1,2,3,5,10}); outputs must be identical; for a quarter of the names the factory is asked twice in a row, the second time for a slightly different matrix of the same shape and row weights (two entries of a row moved towards each other, two columns exchanged, rows reversed, one entry moved), and that decoder is compared with the direct decoder of the second matrix; non-trivial = a case on which at least two of the 36 direct decoders disagree; inner evaluations = compared decoder pairs",
+                rule: "for each of the 36 names, factory-built decoder vs the generic decoder constructed directly from the named arithmetic type and schedule, on a separating family of inputs (C01 classes + strong LLRs 9..16.2 with sign flips so that degree-one clipping, Jones clipping, partial hard limiting, f32 saturation and schedule differences matter; H up to 10 x 14; limits {0,1,2,3,5,10}, converged frames repeated under a limit of usize::MAX, 2^32, 2^31 or 2^32 - 1); outputs must be identical; for a quarter of the names the factory is asked twice in a row, the second time for a slightly different matrix of the same shape and row weights (two entries of a row moved towards each other, two columns exchanged, rows reversed, one entry moved), and that decoder is compared with the direct decoder of the second matrix; non-trivial = a case on which at least two of the 36 direct decoders disagree; inner evaluations = compared decoder pairs",
                 cases: |t| t.pick(100_000, 3_000_000),
                 strategy,
                 check: check_diff,
